@@ -325,8 +325,7 @@ def _memcheck_job(arg):
     import driver
     exe, scripts = arg
     scripts = [(cid, s.replace("CASE %s 10" % cid, "CASE %s 600" % cid)) for cid, s in scripts]
-    return driver.run_cases(exe, scripts, wrapper=["valgrind", "-q", "--error-exitcode=71", "--exit-on-first-error=yes",
-                                                   "--track-origins=no"])
+    return driver.run_cases(exe, scripts, wrapper=list(driver.MEMCHECK))
 
 
 def finish(run, S, tier):
